@@ -16,8 +16,8 @@ specification 0 <= L <= u64::MAX and -59900 <= L-B <= 2990 on every feasible cel
 message agrees with the side it rejects.  (R14.2) the two window constants evaluate to 2990 and 59900.
 (R14.3) construction discipline: the VouchedTime aggregate is built only in new, dominated by the Ok edge of
 check() on the same three parameters; check() rejects on the false edge of BASE_TIME_CHECK.check(base, voucher)
-before the window test and feeds the window test unix_timestamp_nanos(assume_utc(local))/1_000_000 and the
-same base; get_local_time returns self.local_time; now() hands one clock reading to the provider and to new;
+before the window test and feeds the window test floor(unix_timestamp_nanos(assume_utc(local))/1_000_000)
+(div_euclid: a truncating division is rejected, defect F5) and the same base; get_local_time returns self.local_time; now() hands one clock reading to the provider and to new;
 fields are private; new/now/check contain no unwrap/expect/panic.
 NOT decided: semantics of the `time` crate (assume_utc, unix_timestamp_nanos) and of raffle's check (trusted).
 """
@@ -198,13 +198,23 @@ def r14_3(cx):
     ok_ret = all(is_call(a, window.name) or (a.kind == 'agg' and a.info.get('variant') == 'Err') for a in errs) and any(is_call(a, window.name) for a in errs)
     cx.check(ok_ret, 'check-returns', check, None, 'check returns the window verdict or an Err', fail_detail='check() can return something else: %s' % [show(a)[:60] for a in errs])
     l = wc.arg(0).strip()
-    lok = l.kind == 'binop' and l.op == 'Div' and l.b.is_const_int(1000000) and is_call(l.a, 'unix_timestamp_nanos') and \
-        is_call(l.a.strip().args[0], 'assume_utc') and l.a.strip().args[0].strip().args[0].strip().kind == 'param' and \
-        l.a.strip().args[0].strip().args[0].strip().info['i'] == 1
+    # the millisecond conversion must round towards negative infinity: a truncating `/` maps local times in
+    # (-1 ms, 0) to millisecond 0 and defeats the "before the Unix epoch" test (defect F5)
+    def _nanos_of_local(e):
+        e = e.strip()
+        return is_call(e, 'unix_timestamp_nanos') and is_call(e.args[0], 'assume_utc') and \
+            e.args[0].strip().args[0].strip().kind == 'param' and e.args[0].strip().args[0].strip().info['i'] == 1
+    floor = is_call(l, 'div_euclid') and _nanos_of_local(l.args[0]) and l.args[1].is_const_int(1000000)
+    trunc = l.kind == 'binop' and l.op == 'Div' and l.b.is_const_int(1000000) and _nanos_of_local(l.a)
     b = wc.arg(1).strip()
-    cx.check(lok and b.kind == 'param' and b.info['i'] == 2, 'window-operands', check, wc.loc(),
-             'window test gets unix_timestamp_nanos(assume_utc(local_time))/1_000_000 and base_time_ms',
-             fail_detail='window operands are %s and %s' % (show(l)[:120], show(b)))
+    if trunc:
+        cx.fail('window-operands', check, wc.loc(), 'the local time is converted to milliseconds with a truncating division: '
+                'a local time less than 1 ms before the Unix epoch becomes millisecond 0 and passes the epoch test '
+                '(e.g. 1969-12-31T23:59:59.9995 with base 0 is accepted)')
+    else:
+        cx.check(floor and b.kind == 'param' and b.info['i'] == 2, 'window-operands', check, wc.loc(),
+                 'window test gets unix_timestamp_nanos(assume_utc(local_time)).div_euclid(1_000_000) (floor) and base_time_ms',
+                 fail_detail='window operands are %s and %s' % (show(l)[:120], show(b)))
     # accessor
     g = prog.fn('vouched_time::VouchedTime::get_local_time')
     r = g.local_expr(0, []).strip()
